@@ -170,7 +170,9 @@ def index_shape(loop):
             if not every and hb != mb:
                 continue
             rd = ReachingDefs(fn)
-            ds = [d for d in rd.reaching(var, cond) if d.node is None or not d.node.within(loop)]
+            init = loop.child("init") if loop.k == "ForStmt" else None
+            ds = [d for d in rd.reaching(var, cond) if d.node is None or not d.node.within(loop) or (init is not None and d.node.within(init))]
+            ds = [d for d in ds if d.kind in ("init", "assign")]
             if len(ds) != 1 or ds[0].rhs is None:
                 continue
             sh.var, sh.step, sh.cmp, sh.bound = var, step, cmp_, bound
@@ -180,3 +182,120 @@ def index_shape(loop):
             sh.why = ""
             return sh
     return sh
+
+
+class Traversal:
+    """one array walked by a loop: elements base[lo .. hi) in steps of `step`; `elems` are the expressions that denote
+    the current element inside the body (base[i], *p, a local loaded from *p++ ...)"""
+    def __init__(self, loop, base, lo, hi, step, elems, var, ptr):
+        self.loop, self.base, self.lo, self.hi, self.step, self.elems, self.var, self.ptr = loop, base, lo, hi, step, elems, var, ptr
+
+    def covers(self, base, hi, lo="0"):
+        return self.base == base and self.hi == hi and self.lo == lo and self.step > 0
+
+    def describe(self):
+        return "%s %s[%s .. %s) by %s `%s`" % ("ascending" if self.step > 0 else "descending", self.base, self.lo, self.hi,
+                                                "pointer" if self.ptr else "index", self.var)
+
+    def is_elem(self, text, field=None):
+        """does the rendered expression denote the current element (or its field)?"""
+        for e in self.elems:
+            if field is None and text == e:
+                return True
+            if field is not None and text in ("%s.%s" % (e, field), "%s->%s" % (e.lstrip("*") if e.startswith("*") else e, field), "(%s).%s" % (e, field)):
+                return True
+        return False
+
+
+def traversals(loop):
+    """the arrays a loop walks (possibly several with an index loop, one with a pointer loop); [] when not recognised"""
+    from .dataflow import ReachingDefs
+    fn = loop.fn
+    out = []
+    sh = index_shape(loop)
+    body = loop.child("body")
+    if sh.ok:
+        bases = {}
+        for x in loop.walk():
+            if x.k == "ArraySubscriptExpr" and render(x.children[1]) == sh.var:
+                bases.setdefault(render(x.children[0]), None)
+        ptrvar = any(n.k == "DeclRefExpr" and n.j.get("name") == sh.var and (n.j.get("ct") or "").endswith("*") for n in loop.walk())
+        if not ptrvar:
+            for b in bases:
+                out.append(Traversal(loop, b, sh.start if sh.step > 0 else sh.bound, sh.bound if sh.step > 0 else sh.start, sh.step,
+                                     {"%s[%s]" % (b, sh.var)}, sh.var, False))
+            if out or not bases:
+                return out
+    # pointer walk:  p = BASE; end = BASE + COUNT;  while (p < end) / for (; p != end; p++)
+    cond = loop.child("cond")
+    if cond is None:
+        return out
+    rd = ReachingDefs(fn)
+
+    def conj(e):
+        e2 = e.strip()
+        if e2.k == "BinaryOperator" and e2.j.get("op") == "&&":
+            return conj(e2.children[0]) + conj(e2.children[1])
+        return [e2]
+
+    def single_def(name):
+        ds = [d for d in rd.defs if d.var == name and d.kind in ("init", "assign") and d.rhs is not None]
+        return ds[0].rhs if len(ds) == 1 else None
+    for c in conj(cond):
+        if c.k != "BinaryOperator" or c.j.get("op") not in ("<", "!=", ">"):
+            continue
+        a, b = c.children[0].strip(), c.children[1].strip()
+        if c.j["op"] == ">":
+            a, b = b, a
+        if a.k != "DeclRefExpr" or not (a.j.get("ct") or "").endswith("*"):
+            continue
+        p = a.j["name"]
+        movers = [x for x in loop.walk() if x.k == "UnaryOperator" and x.j.get("op") == "++" and render(x.children[0]) == p]
+        others = [x for x in loop.walk() if (x.k == "UnaryOperator" and x.j.get("op") == "--" and render(x.children[0]) == p) or
+                  (x.k in ("BinaryOperator", "CompoundAssignOperator") and x.j.get("op") in ("=", "+=", "-=") and render(x.children[0]) == p
+                   and not (loop.k == "ForStmt" and loop.child("init") is not None and x.within(loop.child("init"))))]
+        if len(movers) != 1 or others:
+            continue
+        cfg = fn.cfg
+        hb = cfg.loop_header(loop)
+        mb = cfg.block_of(movers[0])
+        nl = cfg.natural_loop(hb)
+        seen, work, every = set(), [s2 for (bb, i2, s2) in cfg.edges() if bb == hb and s2 in nl], True
+        while work:
+            bb = work.pop()
+            if bb == hb:
+                every = False
+                break
+            if bb in seen or bb == mb:
+                continue
+            seen.add(bb)
+            work.extend(s2 for (b3, i2, s2) in cfg.edges() if b3 == bb and s2 in nl)
+        if not every and hb != mb:
+            continue
+        starts = [d for d in rd.reaching(p, cond) if d.node is None or not d.node.within(loop) or
+                  (loop.k == "ForStmt" and loop.child("init") is not None and d.node.within(loop.child("init")))]
+        starts = [d for d in starts if d.kind in ("init", "assign")]
+        if len(starts) != 1 or starts[0].rhs is None:
+            continue
+        base = render(starts[0].rhs)
+        end = b
+        if end.k == "DeclRefExpr" and end.j.get("dk") == "local":
+            r = single_def(end.j["name"])
+            if r is None:
+                continue
+            end = r.strip()
+        if end.k != "BinaryOperator" or end.j.get("op") != "+":
+            continue
+        e0, e1 = render(end.children[0]), render(end.children[1])
+        if e0 == p:
+            e0 = base           # end = p + COUNT computed before the loop, when p still is the base
+        if e0 != base:
+            continue
+        elems = {"*" + p}
+        for d in rd.defs:
+            if d.kind in ("init", "assign") and d.rhs is not None and d.node is not None and d.node.within(loop):
+                t = render(d.rhs)
+                if t in ("*%s++" % p, "*%s" % p, "*(%s++)" % p) and len([x for x in rd.defs if x.var == d.var and x.kind in ("init", "assign", "update")]) == 1:
+                    elems.add(d.var)
+        out.append(Traversal(loop, base, "0", e1, 1, elems, p, True))
+    return out
